@@ -27,7 +27,7 @@ type replayCase struct {
 }
 
 var (
-	qcoords    = []float64{-1, 0, 1.5, 2, 4.5}
+	qcoords    = []float64{-1, 0, 1.5, 2, 4.5, -80} // -80: far outside the bound (clamping the query point changes the order of the candidates)
 	qcX, qcY   = qcoords, qcoords
 	bxsX, bxsY [][2]float64
 	skew       = false // scenario: false = dyadic bound [0,4]^2, true = the non-dyadic bound [0.2,2.2]x[0.1,0.7]
